@@ -243,13 +243,65 @@ func CalleeName(c *ssa.CallCommon) string {
 	return "dynamic"
 }
 
+// Name hooks: the loader installs translations of unexported names to the
+// names the rules know them by (core/canon.go). Identity by default.
+var (
+	FieldNameHook  = func(st *types.Struct, i int) string { return st.Field(i).Name() }
+	TypeNameHook   = func(tn *types.TypeName) string { return tn.Name() }
+	FuncNameHook   = func(f *types.Func) string { return f.Name() }
+	GlobalNameHook = func(o types.Object) string { return o.Name() }
+)
+
 // FuncFullName: "pkgpath.Name" or "(*pkgpath.T).Name", generic instances
-// reported under their origin.
+// reported under their origin, unexported names in their canonical form.
 func FuncFullName(f *ssa.Function) string {
+	if f.Parent() != nil {
+		// anonymous: parent's name + "$n"
+		n := f.Name()
+		if i := strings.LastIndex(n, "$"); i >= 0 {
+			return FuncFullName(f.Parent()) + n[i:]
+		}
+		return f.String()
+	}
 	if o := f.Origin(); o != nil {
 		f = o
 	}
-	return f.String()
+	s := f.String()
+	obj, _ := f.Object().(*types.Func)
+	if obj == nil {
+		return s
+	}
+	if cn := FuncNameHook(obj); cn != obj.Name() && strings.HasSuffix(s, "."+obj.Name()) {
+		s = strings.TrimSuffix(s, obj.Name()) + cn
+	}
+	if sig, ok := obj.Type().(*types.Signature); ok && sig.Recv() != nil {
+		t := sig.Recv().Type()
+		if p, isPtr := t.(*types.Pointer); isPtr {
+			t = p.Elem()
+		}
+		if named, isNamed := t.(*types.Named); isNamed && named.Obj().Pkg() != nil {
+			tn := named.Obj()
+			if cn := TypeNameHook(tn); cn != tn.Name() {
+				s = strings.Replace(s, tn.Pkg().Path()+"."+tn.Name(), tn.Pkg().Path()+"."+cn, 1)
+			}
+		}
+	}
+	return s
+}
+
+// ShortName: the (canonical) name of a function without package and receiver.
+func ShortName(f *ssa.Function) string {
+	if f.Parent() != nil {
+		return f.Name()
+	}
+	o := f
+	if oo := f.Origin(); oo != nil {
+		o = oo
+	}
+	if obj, ok := o.Object().(*types.Func); ok && obj != nil {
+		return FuncNameHook(obj)
+	}
+	return f.Name()
 }
 
 // StaticCallee returns the called function when statically known.
@@ -365,10 +417,13 @@ func fieldName(t types.Type, i int) string {
 		t = p.Elem()
 	}
 	if s, ok := t.Underlying().(*types.Struct); ok && i < s.NumFields() {
-		return s.Field(i).Name()
+		return FieldNameHook(s, i)
 	}
 	return fmt.Sprintf("f%d", i)
 }
+
+// FieldName is the canonical name of field i of (pointer to) struct type t.
+func FieldName(t types.Type, i int) string { return fieldName(t, i) }
 
 func (st *provState) compute(v ssa.Value) string {
 	switch x := v.(type) {
@@ -389,6 +444,9 @@ func (st *provState) compute(v ssa.Value) string {
 	case *ssa.Const:
 		return constString(x)
 	case *ssa.Global:
+		if o := x.Object(); o != nil {
+			return "global:" + GlobalNameHook(o)
+		}
 		return "global:" + x.Name()
 	case *ssa.Function:
 		return "func:" + FuncFullName(x)
@@ -523,7 +581,8 @@ func (st *provState) compute(v ssa.Value) string {
 		return st.path(x.Tuple) + fmt.Sprintf("#%d", x.Index)
 	case *ssa.MakeClosure:
 		if fn, ok := x.Fn.(*ssa.Function); ok {
-			return "closure:" + fn.Name()
+			n := FuncFullName(fn)
+			return "closure:" + n[strings.LastIndex(n, ".")+1:]
 		}
 		return "closure"
 	case *ssa.MakeMap:
